@@ -527,7 +527,13 @@ static void judge_attempt(RunResult &r, const Obj &orig, const Obj &like, const 
     Outcome oc = guarded_call(do_attempt, &a, &fa);
     std::cerr.rdbuf(old_cerr); std::cerr.clear();
     r.probes.add(std::string("outcome_") + outcome_name(oc) + (oc == O_RETURNED ? (a.stream_failed ? "_failed_stream" : "_clean") : ""));
-    r.ev.u64((uint64_t) oc * 2 + (a.stream_failed ? 1 : 0));
+    // the event log records the outcome CLASS the property distinguishes (refused / wild access / returned clean).  Which way an
+    // import is refused may legitimately depend on stack garbage: a type tag of which a truncated stream delivered one byte is
+    // compared with three uninitialised bytes (abort) or passes and the next read fails (failed stream state) - seen as a 20 %
+    // ASLR-dependent difference of one attempt's outcome in the thorough tier; both outcomes refuse the input.
+    int ocl = oc == O_WILDSEGV ? 2 : (oc == O_RETURNED && !(rc.transport == 1 && a.stream_failed)) ? 1 : 0;
+    r.ev.u64((uint64_t) ocl);
+    if (getenv("DSIM_TRACE")) fprintf(stderr, "attempt %llu op %d: %s -> %s%s (%s)\n", (unsigned long long) r.steps, opi, what.c_str(), outcome_name(oc), a.stream_failed ? " failed-stream" : "", rc.str().c_str());
     r.steps++;
     if (oc == O_WILDSEGV) { r.v.raise("import-wild-access", "C18.oob", fmt("%s: import faulted at address %#lx while parsing", what.c_str(), (unsigned long) fa), opi); return; }
     if (oc != O_RETURNED) return;                 // process would have terminated: acceptable
